@@ -430,8 +430,9 @@ def find_obs(obs_list, t):
 FAILED_STATES = ("host_failure", "network_failure", "storage_failure", "canceled")
 
 
-def compare_acts(sc, fin, recs):
-    """status and finish date of every activity: implementation (act records) vs reference timeline (FIN record)"""
+def compare_acts(sc, fin, recs, date_tol=None):
+    """status and finish date of every activity: implementation (act records) vs reference timeline (FIN record);
+    date_tol(i) = extra absolute tolerance on the finish date of activity i (0-based), default none"""
     bad = []
     acts = acts_of(recs)
     end = end_of(recs)
@@ -446,7 +447,8 @@ def compare_acts(sc, fin, recs):
         if want == "done" and fin.get("tie", [False] * len(sc["acts"]))[i] and got["state"] in FAILED_STATES and near(got["clock"], wfin):
             continue        # completion and failure of a resource at the same date: the outcome of the tie is left open
         if want == "done":
-            if got["state"] != "done" or not near(got["finish"], wfin):
+            extra = date_tol(i) if date_tol else 0
+            if got["state"] != "done" or not (near(got["finish"], wfin) or (extra and abs(Fraction(got["finish"]) - wfin) <= extra)):
                 bad.append("activity %d (%s): %s at %.17g, reference: done at %s = %.17g" %
                            (i + 1, a["kind"], got["state"], got["finish"], wfin, float(wfin)))
         elif want == "failed":
